@@ -1,5 +1,6 @@
 import LnModel.Lemmas.DomainNames
 import LnModel.Treeshake
+import LnModel.Pipeline
 /-! C01, extraction half: on every document of the supported domain (`inD`, `LnModel/Domain.lean`) the
 extractor returns a HIR -- none of its panic sites (unresolved or property-level references, missing
 schemas, missing success responses, slices out of range, parameters without schema, unresolved
@@ -126,6 +127,68 @@ theorem C01_extract_total (spec : Spec) (h : inD spec = true) : ∃ hir, extract
 theorem C01_extractSpec_total (spec : Spec) (h : inD spec = true) : ∃ hir, extractSpec spec = .ok hir := by
   obtain ⟨hir, hh⟩ := C01_extract_total spec h
   exact ⟨treeshake hir, by simp only [extractSpec, hh]⟩
+
+theorem mapE_error_mem {α β ε : Type} (f : α → Except ε β) : ∀ (l : List α) (e : ε), mapE f l = .error e → ∃ x ∈ l, f x = .error e := by
+  intro l
+  induction l with
+  | nil => intro e h; simp [mapE] at h
+  | cons a rest ih =>
+    intro e h
+    simp only [mapE] at h
+    cases ha : f a with
+    | error e' => rw [ha] at h; simp at h; exact ⟨a, by simp, by rw [ha, h]⟩
+    | ok b =>
+      rw [ha] at h
+      cases hr : mapE f rest with
+      | error e' => rw [hr] at h; simp at h; obtain ⟨x, hx, hfx⟩ := ih e' hr; exact ⟨x, by simp [hx], by rw [hfx, h]⟩
+      | ok bs => rw [hr] at h; simp at h
+
+
+/-- a failing writer never reports an extraction failure -/
+theorem emitFiles_error_not_extract (hir : HirSpec) (cfg : Cfg) (x : PipeX) (h : emitFiles hir cfg = .error x) :
+    ∀ e, x ≠ .extract e := by
+  intro e0
+  unfold emitFiles at h
+  split at h
+  · rename_i e he
+    simp only [Except.error.injEq] at h; subst h
+    obtain ⟨kv, _, hk⟩ := mapE_error_mem _ _ _ he
+    unfold modelPath at hk
+    split at hk
+    · simp at hk
+    · simp only [Except.error.injEq] at hk; subst hk; simp
+  · split at h
+    · rename_i e he
+      simp only [Except.error.injEq] at h; subst h
+      obtain ⟨op, _, hk⟩ := mapE_error_mem _ _ _ he
+      unfold requestPath at hk
+      split at hk
+      · simp at hk
+      · simp only [Except.error.injEq] at hk; subst hk; simp
+    · split at h
+      · simp only [Except.error.injEq] at h; subst h; simp
+      · simp only [Except.error.injEq] at h; subst h; simp
+      · split at h
+        · rename_i e he
+          simp only [Except.error.injEq] at h; subst h
+          split at he
+          · obtain ⟨op, _, hk⟩ := mapE_error_mem _ _ _ he
+            unfold examplePath at hk
+            split at hk
+            · simp at hk
+            · simp only [Except.error.injEq] at hk; subst hk; simp
+          · simp at he
+        · simp at h
+
+/-- **on D a failing run of the pipeline model is never a failure of the extractor**: whatever stops generation
+on a document of `inD` is one of the writers' panic sites (whose obligations `emitFiles_total` names) -/
+theorem C01_no_extract_failure (spec : Spec) (cfg : Cfg) (h : inD spec = true) (e : XPanic) :
+    pipeline spec cfg ≠ .error (.extract e) := by
+  obtain ⟨hir, hh⟩ := C01_extractSpec_total spec h
+  unfold pipeline
+  rw [hh]
+  intro hc
+  exact emitFiles_error_not_extract hir cfg _ hc e rfl
 
 /-! ### the hypothesis is satisfiable, and excludes what it should -/
 
